@@ -78,6 +78,7 @@ fn lane_main(a: &[String]) {
     let t0 = Instant::now();
     props::run(&prop, &mut ctx);
     ctx.result.wall_s = t0.elapsed().as_secs_f64();
+    ctx.result.counters = take_counters();
     std::fs::write(&out, serde_json::to_vec(&ctx.result).unwrap()).expect("write lane result");
     vcore::helpers::shutdown();
 }
